@@ -124,6 +124,20 @@ def run(ctx: Ctx):
     if realm is None or not nondefault or not all(
             isinstance(n.ast.value, ast.Call) and _from_dest_realm(n.ast.value) for n in nondefault):
         ctx.fail(cons, f.loc(), "the destination realm of the request is not what selects the route table")
+    # a request without attribute definitions (a command without python implementation, a plain
+    # Message given a list of AVPs) carries its realm in the AVP list only: that list is consulted
+    ctx.inst(cons + "#avp-fallback")
+    src_avp = any((isinstance(x, ast.For) and ast.unparse(x.iter) == f"{msg}.avps"
+                   and any(isinstance(t_, ast.If) and "AVP_DESTINATION_REALM" in ast.unparse(t_.test) for t_ in ast.walk(x)))
+                  or (isinstance(x, ast.Call) and A.call_name(x) == f"{msg}.find_avps"
+                      and "AVP_DESTINATION_REALM" in ast.unparse(x))
+                  for x in A.walk_no_nested(f.node))
+    if not src_avp:
+        ctx.fail(cons + "#avp-fallback", f.loc(), f"route_request reads the destination realm from the "
+                 f"`destination_realm` attribute only: a request of a command without python "
+                 f"implementation (or a plain Message built from AVPs) has no such attribute, its "
+                 f"Destination-Realm AVP is ignored and the request is routed - and sent - by the "
+                 f"node's own realm")
     # the request's realm replaces the node's own whenever it is PRESENT (not: whenever it is
     # true - an empty Destination-Realm names no realm this node serves)
     for n in nondefault:
@@ -310,9 +324,19 @@ def run(ctx: Ctx):
         ctx.fail(cons, f.loc(), "the hop-by-hop identifier is not drawn from the selected "
                  "connection's generator (ids on one connection may collide)")
     else:
+        # "unique among the requests outstanding on its connection" is a promise the node can only
+        # keep for identifiers it draws itself: an identifier that is kept because the message
+        # carries one already (a request object sent again after a timeout, a relayed request)
+        # may equal one that is outstanding
         facts = must_facts(g, at, hb[0])
-        if (f"{msg}.header.hop_by_hop_identifier", "truthy", None, False) not in facts:
-            ctx.fail(cons, g.loc(hb[0]), "a hop-by-hop identifier supplied by the caller is overwritten")
+        ctx.inst(cons + "#caller-supplied-kept")
+        if (f"{msg}.header.hop_by_hop_identifier", "truthy", None, False) in facts:
+            ctx.fail(cons + "#caller-supplied-kept", g.loc(hb[0]), "route_request draws a hop-by-hop "
+                     "identifier only when the message has none: a request object that is sent again "
+                     "(after a timeout, with changed content) leaves with the identifier of its first "
+                     "transmission, which may still be outstanding on the connection - the second "
+                     "sender is handed the answer to the first request and the answer to the second is "
+                     "dropped")
     pend = [n for n in g.nodes if n.kind == "stmt" and isinstance(n.ast, ast.Assign) and any(
         isinstance(t, ast.Subscript) and A.dotted(t.value) == "self._app_waiting_answer" for t in n.ast.targets)]
     cons = "route_request:pending-key"
@@ -538,6 +562,8 @@ def run(ctx: Ctx):
     # closing) is never turned back into a ready - and therefore routable - one
     from .common_node import ready_state_stores
     ready_state_stores(ctx, "C10-R8")
+    from .common_node import ready_substate_transitions_atomic
+    ready_substate_transitions_atomic(ctx, "C10-R8b")
     from .common_node import realm_key_case
     realm_key_case(ctx, "C10-R10")
     # writer, readers and purge of the flat transaction tables agree on the key
